@@ -43,12 +43,19 @@ class TlcResult:
         self.distinct = int(m.group(2)) if m else 0
         # invariant violations: list of (invariant name, state text)
         self.violations: List[Dict[str, Any]] = []
-        for m in re.finditer(
-            r"Error: Invariant (\w+) is violated(?: by the initial state)?[.:]\n(.*?)(?=\n\n|\nError:|\nFinished|\nProgress|\Z)",
-            stdout,
-            re.S,
-        ):
-            self.violations.append({"invariant": m.group(1), "state": m.group(2).strip()})
+        # split the output at every reported invariant violation; the state of interest is the LAST state printed
+        # for that violation (the initial state itself for "violated by the initial state")
+        marks = [m for m in re.finditer(r"^Error: Invariant (\w+) is violated(?: by the initial state)?[.:]\s*$", stdout, re.M)]
+        for k, m in enumerate(marks):
+            end = marks[k + 1].start() if k + 1 < len(marks) else len(stdout)
+            chunk = stdout[m.end():end]
+            stop = re.search(r"^(Finished|Progress|Model checking completed|\d+ states generated|Error: (?!The behavior up to this point))", chunk, re.M)
+            if stop:
+                chunk = chunk[: stop.start()]
+            states = re.split(r"^State \d+: .*$", chunk, flags=re.M)
+            last = states[-1] if len(states) > 1 else chunk
+            last = re.sub(r"^Error: The behavior up to this point is:\s*$", "", last, flags=re.M)
+            self.violations.append({"invariant": m.group(1), "state": last.strip(), "depth": max(1, len(states) - 1)})
         self.action_violations = re.findall(r"Error: Action property (\w+) is violated", stdout)
         self.other_errors: List[str] = []
         for m in re.finditer(r"^Error: (.*)$", stdout, re.M):
